@@ -752,14 +752,18 @@ pub struct C18Scn {
     pub small_every: usize,
     #[serde(default)]
     pub small_len: usize,
+    /// if set: exactly one small record, at this record index (somewhere inside the window)
+    #[serde(default)]
+    pub small_at: Option<usize>,
     pub warm: usize,
     pub window: usize,
 }
 
 fn c18_record(s: &C18Scn, i: usize) -> Vec<u8> {
-    if s.small_every > 0 && i % s.small_every == s.small_every - 1 {
+    if (s.small_every > 0 && i % s.small_every == s.small_every - 1) || s.small_at == Some(i) {
         let mut z = s.clone();
         z.small_every = 0;
+        z.small_at = None;
         z.line_len = s.small_len;
         return c18_record(&z, i);
     }
@@ -809,6 +813,7 @@ pub fn gen_c18(rng: &Rng, tier: Tier) -> C18Scn {
         },
         small_every: 0,
         small_len: 0,
+        small_at: None,
         warm: rng.range(4, 40),
         window: match tier {
             Tier::Quick => rng.range(50, 400),
@@ -820,8 +825,15 @@ pub fn gen_c18(rng: &Rng, tier: Tier) -> C18Scn {
         // mixed sizes: mostly records that nearly fill the buffer, now and then a tiny one
         s.n_lines = s.n_lines.max(1);
         s.line_len = rng.range(20, 120);
-        s.small_every = rng.range(2, 7);
         s.small_len = rng.range(0, 2);
+        if rng.chance(1, 2) {
+            s.small_every = rng.range(2, 7);
+        } else {
+            // a single tiny record, first met well inside the measured window
+            s.head_len = rng.range(1, 3);
+            s.sets = s.sets && s.set_mode == 0;
+            s.small_at = Some(s.warm + 8 + rng.range(0, s.window.saturating_sub(12).max(1)));
+        }
         let big = c18_record(&s, 0).len();
         s.cap = big + rng.range(2, 6);
         s.warm = s.warm.max(4 * s.small_every + 6);
